@@ -14,6 +14,7 @@ import (
 	"gverif/engine/dspx"
 	"gverif/engine/factx"
 	"gverif/engine/flagx"
+	"gverif/engine/globalx"
 	"gverif/engine/goproto"
 	"gverif/engine/graphinv"
 	"gverif/engine/initx"
@@ -108,6 +109,17 @@ var lapackArgs = args.Options{
 	},
 }
 var blasArgs = args.Options{RecvType: "Implementation"}
+
+// The only functions outside init that write package-level state without a
+// lock (GLOBAL.write), each a documented process-wide setting.
+var globalWriters = globalx.Options{Allowed: map[string]string{
+	"blas/blas32.Use|blas32":       "documented: 'Use sets the BLAS float32 implementation to be used by subsequent BLAS calls' — a process-wide setting made before use",
+	"blas/blas64.Use|blas64":       "documented process-wide setting (Use)",
+	"blas/cblas128.Use|cblas128":   "documented process-wide setting (Use)",
+	"blas/cblas64.Use|cblas64":     "documented process-wide setting (Use)",
+	"lapack/lapack64.Use|lapack64": "documented process-wide setting (Use)",
+	"optimize.NewStatus|statuses":  "documented: 'NewStatus is intended to be called only during package initialization, and calls to NewStatus are not thread safe'",
+}}
 
 // Routines whose workspace-query answer WORKSIZE cannot relate to their
 // enforced minimum, each confirmed by reading.
@@ -410,7 +422,7 @@ var concurrentPkgs = []string{"./blas/gonum", "./integrate/quad", "./diff/fd", "
 
 func init() {
 	properties["C09"] = &property{
-		explanation: "Decides the synchronisation structure behind C09 at all 21 go statements of non-test code and for all pooled workspaces of mat: GOPROTO.capture — every variable of a spawning function that a goroutine assigns is written under a mutex that covers every other concurrent access, or by a single goroutine whose deferred WaitGroup.Done every other access Wait()s for on all paths; GOPROTO.wg — each WaitGroup.Add is matched by goroutines that defer Done, Add(n) equals the spawning loop's trip count (including gemm's blocks(m,bs)*blocks(n,bs) tiling), and Wait is present; GOPROTO.close — every ranged/quit channel is closed by exactly one site, reached on every exit when unconditional ('leaves no goroutines behind'); GOPROTO.lockpair — every Lock() is paired with its Unlock() in the same statement list; GOPROTO.once — a field initialised inside sync.Once.Do is never read around the Do call (double-checked locking) and other methods read it only after calling the initialiser; GOPROTO.sibling — serial and concurrent implementations dispatched from one call site read the same settings (found and repaired: OriginKnown ignored by three concurrent fd paths, one user-function call too many); POOL.once/.uaf/.escape — no pooled workspace is put twice on a path, used after its put, or retained in a field, package variable, goroutine or exported result. Does NOT decide tile disjointness, bit-identical reduction order, callback counts in general, or races through aliased matrix views; nothing is executed and no race detector is used.",
+		explanation: "Decides the synchronisation structure behind C09 at all 21 go statements of non-test code and for all pooled workspaces of mat: GOPROTO.capture — every variable of a spawning function that a goroutine assigns is written under a mutex that covers every other concurrent access, or by a single goroutine whose deferred WaitGroup.Done every other access Wait()s for on all paths; GOPROTO.wg — each WaitGroup.Add is matched by goroutines that defer Done, Add(n) equals the spawning loop's trip count (including gemm's blocks(m,bs)*blocks(n,bs) tiling), and Wait is present; GOPROTO.close — every ranged/quit channel is closed by exactly one site, reached on every exit when unconditional ('leaves no goroutines behind'); GOPROTO.lockpair — every Lock() is paired with its Unlock() in the same statement list; GOPROTO.once — a field initialised inside sync.Once.Do is never read around the Do call (double-checked locking) and other methods read it only after calling the initialiser; GOPROTO.sibling — serial and concurrent implementations dispatched from one call site read the same settings (found and repaired: OriginKnown ignored by three concurrent fd paths, one user-function call too many); POOL.once/.uaf/.escape — no pooled workspace is put twice on a path, used after its put, or retained in a field, package variable, goroutine or exported result; GLOBAL.write — in all 4 843 functions of the module, outside init, no package-level variable (or element/field of one) is written without a lock or sync.Once, except by the six documented process-wide setters (blas*/lapack64.Use, optimize.NewStatus): library calls issued from many goroutines share no unsynchronised mutable state of their own. Does NOT decide tile disjointness, bit-identical reduction order, callback counts in general, or races through aliased matrix views; nothing is executed and no race detector is used.",
 		assumptions: commonAssumptions,
 		run: func(tier string, res *core.Result) {
 			g := goproto.Run(def, core.Pkgs(concurrentPkgs...))
@@ -428,7 +440,12 @@ func init() {
 			p.Floor("workspace_tokens", 60)
 			p.Floor("put_sites", 60)
 			res.Merge(p)
+			gw := globalx.Run(def, core.Pkgs("./..."), globalWriters)
+			gw.Floor("functions", 4000)
+			gw.Floor("package_level_writes", 6)
+			res.Merge(gw)
 			if tier == "thorough" {
+				res.Merge(globalx.Run(core.Config{Tags: "noasm safe"}, core.Pkgs("./..."), globalWriters))
 				res.Merge(goproto.Run(def, core.Pkgs("./...")))
 				res.Merge(pool.Run(core.Config{Tags: "safe"}))
 				res.Merge(goproto.Run(core.Config{Tags: "noasm"}, core.Pkgs(concurrentPkgs...)))
@@ -518,6 +535,9 @@ func init() {
 		explanation: "Decides the structural clauses of C17: RESET.fields — in Reset(n) of FFT, CmplxFFT, DCT, DST and QuarterWaveFFT every struct field is reassigned or handed to the fftpack initialiser on every path and workspaces are resliced to lengths depending on n alone ('the same answer regardless of what lengths it was previously Reset with'); WINDOW.pointwise — every window function of dsp/window stores to seq[J] a value that reads no element other than seq[J]; WINDOW.sibling — the weight expression of each real window and of its Complex sibling are identical after inlining locals and constants (14 pairs); TWIN.bounds — the bounds-checked and unchecked fftpack array accessors have identical bodies once guards are set aside. Found and repaired: Tukey.TransformComplex mirrored the left taper into the right. Does NOT decide the butterflies, twiddle factors, scaling, dst/src aliasing or closed-form window values (value-level).",
 		assumptions: commonAssumptions,
 		run: func(tier string, res *core.Result) {
+			gw := globalx.Run(def, core.Pkgs("./dsp/..."), globalx.Options{})
+			gw.Floor("functions", 110)
+			res.Merge(gw)
 			r := dspx.RunReset(def)
 			r.Floor("reset_methods", 5)
 			r.Floor("fields_checked", 10)
@@ -574,6 +594,8 @@ func dump(argv []string) {
 			pk = []string{"./..."}
 		}
 		res = config.Run(config.Matrix(tier), pk)
+	case "global":
+		res = globalx.Run(def, core.Pkgs(argv[1:]...), globalx.Options{})
 	case "arms":
 		res = worksize.RunArms(def, core.Pkgs(argv[1:]...))
 	case "worksize":
